@@ -87,6 +87,8 @@ def h_transpose(cx, sp, via):
     ops = geo.M('operations')
     obj, info = shapes.build(cx, sp)
     ref = shapes.clone(obj)
+    plain0 = [list(p) for p in obj.ctrlpts]          # the flat unweighted view is looked at before transposing
+    w0 = list(obj.weights) if obj.rational else None
     if via == 'method':
         obj.transpose()
         t = obj
@@ -107,6 +109,14 @@ def h_transpose(cx, sp, via):
     for i in range(su):
         for j in range(sv):
             cx.eq('net[%d][%d]' % (i, j), tnet[i + su * j], net[j + sv * i])
+    plain1 = [list(p) for p in t.ctrlpts]
+    g1 = t.ctrlpts2d
+    for i in range(su):
+        for j in range(sv):
+            cx.eq('ctrlpts[%d][%d]' % (i, j), plain1[i + su * j], plain0[j + sv * i])
+            if w0 is not None:
+                cx.eq('weights[%d][%d]' % (i, j), t.weights[i + su * j], w0[j + sv * i])
+                cx.eq('ctrlpts2d[%d][%d]' % (i, j), list(g1[j][i]), [x * w0[j + sv * i] for x in plain0[j + sv * i]] + [w0[j + sv * i]])
 
 
 def h_extract_construct_surface(cx, sp, direction):
